@@ -27,6 +27,9 @@ pub enum Kind {
     V2Vector,
     /// the same, followed by the perturbation of the encoding
     V2VectorPerturb,
+    /// value-side relations on a value one of whose sequences holds around 1..4 MiB worth of
+    /// elements (in-memory size), on and next to the whole-MiB counts
+    LongList,
 }
 
 /// one file of /repo/crates/chia-protocol/quality-string-tests
@@ -267,6 +270,19 @@ pub fn case<T: Ty>(e: &Typed<T>, rng: &mut Rng, rep: &mut Report, cx: &Cx, kind:
         rep.count(&format!("skipped:generator-gave-no-value:{name}"));
         return;
     };
+    if kind == Kind::LongList {
+        let Some(grow) = e.grow else {
+            rep.count(&format!("skipped:no-sequence-to-grow:{name}"));
+            return;
+        };
+        if !grow(&mut v, rng) {
+            rep.count(&format!("skipped:could-not-grow:{name}"));
+            return;
+        }
+        e.normalise(&mut v, rng);
+        rep.count(&format!("long_list:{name}"));
+        rep.count("long_list_values");
+    }
     let mut vec_quality: Vec<(ProofOfSpace, [u8; 32])> = vec![];
     let vector = matches!(kind, Kind::V2Vector | Kind::V2VectorPerturb);
     if vector {
@@ -365,7 +381,7 @@ pub fn case<T: Ty>(e: &Typed<T>, rng: &mut Rng, rep: &mut Report, cx: &Cx, kind:
     if rep.want_sample() && rng.chance(1, 50) {
         rep.sample(json!({"type": name, "kind": format!("{kind:?}"), "encoding": hx(&enc[..enc.len().min(256)]), "len": enc.len()}));
     }
-    if matches!(kind, Kind::Value | Kind::V2Vector) {
+    if matches!(kind, Kind::Value | Kind::V2Vector | Kind::LongList) {
         return;
     }
 
